@@ -165,7 +165,7 @@ PROPS = {
         technique='reference protocol-model monitor in lock-step with harness-controlled message delivery, AddressSanitizer/UBSan',
         stages=[dict(harness='c20', variant='asan', quick=10000, thorough=500000,
                      need=['ops.map', 'ops.cc', 'ops.unMap', 'ops.unmap_effective', 'ops.clear', 'cc.bound', 'cc.bound_14bit', 'cc.offered_for_learning', 'cc.ignored',
-                           'wire.bind_delivered', 'wire.watch_delivered', 'wire.learn_served', 'ops.remap_of_bound_half', 'params.int_range_next_to_0_127'])],
+                           'wire.bind_delivered', 'wire.watch_delivered', 'wire.learn_served', 'ops.remap_of_bound_half', 'params.int_range_next_to_0_127', 'histories.long', 'histories.controllers_on_several_channels'])],
         rule='case = one history incl. delivery schedule; distinct = hash of the rendered history; every history is non-trivial.',
         exhaustive=dict(quick=False, thorough=False),
         assumptions=['reference protocol model harness/c20.cpp']),
